@@ -289,6 +289,10 @@ func execOp(op string) vlib.Res {
 		return execNss(a)
 	case "l3id":
 		return execL3ID(a)
+	case "l3deadline":
+		return execL3Deadline(a)
+	case "l3trunc":
+		return execL3Trunc(a)
 	}
 	if fc == nil {
 		return vlib.Res{Impl: "nocache"}
